@@ -112,6 +112,17 @@ def apply(st: St, op: list) -> None:
             file = InstanceFile(VMF.parse(Keyvalues.parse(TEMPLATE), preserve_ids=True))
             inst = Instance('inst', 'f.vmf', Vec(), Matrix())
             collapse_one(v0, inst, file)
+        elif k == 'collapse_same':
+            # the SAME Instance object collapsed again (e.g. after moving it): its id tables persist between the calls
+            file = InstanceFile(VMF.parse(Keyvalues.parse(TEMPLATE), preserve_ids=True))
+            if getattr(st, 'inst', None) is None:
+                st.inst = Instance('inst', 'f.vmf', Vec(), Matrix())
+            st.n_same = getattr(st, 'n_same', 0) + 1
+            collapse_one(v0, st.inst, file)
+        elif k == 'setkey':
+            st.ents[op[1]][op[2]] = op[3]
+        elif k == 'deltuple':
+            del st.ents[op[1]]['health', 'nodeid', 'nope']
         # ---- solids / faces
         elif k == 'prism':
             st.solids.append(v0.make_prism(P(0, 0, 0), P(8, 8, 8)).solid)
@@ -256,6 +267,8 @@ def apply(st: St, op: list) -> None:
             del st.fxo[op[1]][op[2]]
         elif k == 'fxoclear':
             st.fxo[op[1]].clear()
+        elif k == 'fixsetdefault':
+            st.fix[op[1]].fixup.setdefault(op[2], 'd')
         elif k == 'fixupdate':
             st.fix[op[1]].fixup.update(op[2])
         elif k == 'fixclear':
@@ -288,8 +301,9 @@ def vis_ids(tree) -> list:
 
 
 def _node_keys(e) -> list:
-    """Every stored key that spells 'nodeid' in any case, with its value (a stale second spelling has its own future)."""
-    return sorted((k, v) for k, v in e._keys.items() if k.casefold() == 'nodeid')
+    """Every stored key that spells 'nodeid' in any case, with its value (a stale second spelling has its own future), and
+    the other key the alphabet can set (its value may be mistaken for a node number by a faulty delete)."""
+    return sorted((k, v) for k, v in e._keys.items() if k.casefold() in ('nodeid', 'health'))
 
 
 def vis_shape(tree) -> list:
@@ -345,6 +359,13 @@ class Model(bfs.Model):
                 for name in DOCS:
                     ops.append(['parse', name])
             ops.append(['collapse'])
+            ops.append(['collapse_same'])
+            for i, e in enumerate(st.ents):
+                if e is not None:
+                    if 'health' not in e:
+                        ops.append(['setkey', i, 'health', '1'])
+                    else:
+                        ops.append(['deltuple', i])
             ops.append(['ctor_fails', 'ent', -1])
             ops.append(['ctor_fails', 'ent', 1])
         elif p == 'solid':
@@ -414,6 +435,8 @@ class Model(bfs.Model):
                     ops.append(['fixset', i, var, 'v'])
                     ops.append(['fixdel', i, var])
                 ops.append(['fixupdate', i, {'x': '1', 'y': '2'}])
+                ops.append(['fixsetdefault', i, '$New_Var'])
+                ops.append(['fixsetdefault', i, 'a'])
                 ops.append(['fixclear', i])
                 if len(st.fix) < self.maxh:
                     ops.append(['fixcopy', i])
@@ -449,6 +472,9 @@ class Model(bfs.Model):
         # how a stand-alone table was made is part of the state: tables with equal contents made through different copy
         # protocols may share hidden structure with their source and so have different futures
         out.append(list(getattr(st, 'fxo_how', [])))
+        inst = getattr(st, 'inst', None)
+        out.append(None if inst is None else [sorted(inst.node_ids.items()), sorted(inst.ent_ids.items()) if hasattr(inst, 'ent_ids') else None,
+                                              getattr(st, 'n_same', 0)])
         out.append(len(st.problems))
         return out
 
